@@ -9,6 +9,10 @@
 #ifndef C19_CXX_H
 #define C19_CXX_H
 #include <stddef.h>
+#ifdef REPLAY
+/* native runs link the extracted file as a whole (cxx_replace calls igris_memmem): the real routine */
+#include "igris/string/memmem.c"
+#endif
 
 const char *g_data0;          /* in: start of the input buffer */
 size_t g_t;                   /* in: ghost token index */
